@@ -133,8 +133,11 @@ func parseUDTTerm(l *lexer, t token) (idempotent bool, typ termType, err error) 
 		if err != nil {
 			return false, termSetMapUdtLiteral, err
 		}
-		t = skipToken(l, l.next(), tkColon)
-		if idempotent, typ, err = parseTerm(l, t); !idempotent {
+		if tkColon != t {
+			return false, termSetMapUdtLiteral, errors.New("expected ':' after field name in UDT literal")
+		}
+		// The ':' has been consumed, the value starts with the next token (which is another ':' for a named bind marker)
+		if idempotent, typ, err = parseTerm(l, l.next()); !idempotent {
 			return idempotent, termSetMapUdtLiteral, err
 		}
 		t = skipToken(l, l.next(), tkComma)
